@@ -575,6 +575,9 @@ func (d *Decoder) rawRead(tagType byte) error {
 		if err != nil {
 			return err
 		}
+		if aryLen < 0 {
+			return errors.New("array len less than 0")
+		}
 
 		if _, err = io.CopyN(io.Discard, d.r, int64(aryLen)); err != nil {
 			return err
@@ -583,6 +586,9 @@ func (d *Decoder) rawRead(tagType byte) error {
 		aryLen, err := d.readInt32()
 		if err != nil {
 			return err
+		}
+		if aryLen < 0 {
+			return errors.New("array len less than 0")
 		}
 		for i := 0; i < int(aryLen); i++ {
 			if _, err := d.readInt32(); err != nil {
@@ -594,6 +600,9 @@ func (d *Decoder) rawRead(tagType byte) error {
 		aryLen, err := d.readInt32()
 		if err != nil {
 			return err
+		}
+		if aryLen < 0 {
+			return errors.New("array len less than 0")
 		}
 		for i := 0; i < int(aryLen); i++ {
 			if _, err := d.readInt64(); err != nil {
@@ -609,6 +618,9 @@ func (d *Decoder) rawRead(tagType byte) error {
 		listLen, err := d.readInt32()
 		if err != nil {
 			return err
+		}
+		if listLen < 0 {
+			return errors.New("list length less than 0")
 		}
 		for i := 0; i < int(listLen); i++ {
 			if err := d.rawRead(listType); err != nil {
